@@ -19,6 +19,12 @@ NOTES = ("Contract-based deductive verification of the real code. `./check <ID>`
          "Design and per-property scope: /verif/DESIGN.md.")
 
 CHECKS = {
+    "C01": dict(
+        technique="Kani/CBMC contract harnesses, loop-free over every scalar value and every header, for the basic codecs and header codecs",
+        text="Complete proof of the value-codec layer only: each scalar codec and each header codec is a write-then-read identity for all "
+             "inputs; the whole-data-set round trip (tokens, sequences, objects, deflate) is outside this technique's reach here.",
+        note="Claimed for the scalar/header layer only (DESIGN.md C01). Whole-data-set round trip, text values and pixel data are uncovered.",
+    ),
     "C03": dict(
         technique="Kani/CBMC contract harnesses, loop-free over the full input domain (all VRs x all tags x all u32 lengths)",
         text="Complete proof (not bounded) that the three real header encoders emit exactly the PS3.5 7.1.2 layout and "
@@ -50,6 +56,13 @@ CHECKS = {
         text="Complete proof that binary integer values convert to every integer type exactly or fail; bounded checks of the multi-valued "
              "conversions, truncate and extend_u16 that are listed separately and not counted as proved.",
         note="Textual numbers and the remaining extend_* methods are uncovered. Error values are forgotten (never dropped) in harnesses.",
+    ),
+    "C12": dict(
+        technique="Kani/CBMC contract harnesses over all inputs for the constructors; Verus contracts on the extracted partial date/time parsers",
+        text="Complete proofs that constructors accept exactly the valid component ranges and that the DICOM text of every valid partial date "
+             "and time parses back to the same value with the same precision (and that parsing any bytes cannot panic). The text *producer*, "
+             "date-times with offsets and the range bounds are not covered.",
+        note="read_number is abstract in the Verus unit; to_encoded, AsRange, date-time and range parsing are uncovered (chrono / fmt machinery).",
     ),
     "C15": dict(
         technique="Verus contracts on the extracted lookup and indexing functions with the registry abstracted to a Map/Set view",
@@ -97,10 +110,8 @@ NOT_APPLICABLE = {
     "C33": "External binary, network, transcoding.",
     "C35": "External binaries and the `image` crate.",
     "C36": "Parsing delegates to `std::net` address parsers and `str` splitting; string reasoning unsupported in Verus, too heavy for CBMC; no arithmetic or structural kernel to put under contract.",
-    "C01": "check not built yet in this session (planned in DESIGN.md section 7); not claimed until its check runs",
     "C05": "check not built yet in this session (planned in DESIGN.md section 7); not claimed until its check runs",
     "C09": "check not built yet in this session (planned in DESIGN.md section 7); not claimed until its check runs",
-    "C12": "check not built yet in this session (planned in DESIGN.md section 7); not claimed until its check runs",
     "C14": "check not built yet in this session (planned in DESIGN.md section 7); not claimed until its check runs",
     "C16": "check not built yet in this session (planned in DESIGN.md section 7); not claimed until its check runs",
     "C17": "check not built yet in this session (planned in DESIGN.md section 7); not claimed until its check runs",
